@@ -174,6 +174,36 @@ Theorem C19_encoder_registry : forall (r : ereg) (name : bytes) (v : nat * bool)
 Proof. exact register_enc_spec. Qed.
 Print Assumptions C19_encoder_registry.
 
+(* ---------------------------------------------------------------- histories: nothing is left wedged *)
+(* Mixed histories of RegisterSink, Open, RegisterEncoder, Config.Build and the
+   redirection on the same two registries (wire kind 5).  A rejected registration -
+   empty, malformed or already registered name, in any spelling - is a no-op for the
+   rest of the history: every later operation runs on exactly the registries it would
+   have run on without it. *)
+Theorem C19_rejected_registration_is_noop : forall (r : sreg) (er : ereg) (id : nat) (op : sx) (t : list sx),
+  (tag op = 0%Z -> fst (register r (sx_b (sx_nth op 1)) id) <> ROk ->
+   model_mix_ops r er id (op :: t) =
+   SL [SZ 0; SZ (rres_code (fst (register r (sx_b (sx_nth op 1)) id))); enc_keys (keys r)]
+   :: model_mix_ops r er (S id) t) /\
+  (tag op = 2%Z -> fst (register_enc er (sx_b (sx_nth op 1)) (id, sx_bool (sx_nth op 2))) <> ROk ->
+   model_mix_ops r er id (op :: t) =
+   SL [SZ 0; SZ (rres_code (fst (register_enc er (sx_b (sx_nth op 1)) (id, sx_bool (sx_nth op 2))))); enc_keys (keys er)]
+   :: model_mix_ops r er (S id) t).
+Proof. intros r er id op t. exact (conj (mix_rejected_sink r er id op t) (mix_rejected_enc r er id op t)). Qed.
+Print Assumptions C19_rejected_registration_is_noop.
+(* The harness runs every operation under a watchdog and records one that did not
+   return as [blocked].  The oracle accepts that marker nowhere: not as the observation
+   of a case, and an accepted history has exactly one observation per operation, none
+   of them [blocked] - after whatever registration, Open, Build or redirection was
+   rejected earlier in the history, every later operation must have returned. *)
+Theorem C19_blocked_rejected : forall i, spec i blocked = false.
+Proof. exact blocked_rejected. Qed.
+Print Assumptions C19_blocked_rejected.
+Theorem C19_history_all_returned : forall i o, history_kind i = true -> spec i o = true ->
+  length (sx_l o) = length (sx_l (sx_nth i 1)) /\ Forall (fun ob => is_blocked ob = false) (sx_l o).
+Proof. exact history_returned. Qed.
+Print Assumptions C19_history_all_returned.
+
 (* ---------------------------------------------------------------- wire *)
 (* the oracle the driver runs on the implementation's observations accepts the
    model's observation on every well-formed case of every kind *)
@@ -215,3 +245,17 @@ Example C19_example_wf :
   let i := SL [SZ 0; SL [SL [SB [x43]; SB [x63]]]; SL [u1]; SZ 2] in
   wf i = true /\ model i = SL [SZ 0; SZ 0; SL [SL [SZ 1; SZ 1]]; SL [SL [SZ 0; SZ 2; SZ 0]]; SL [SL [SZ 0; SZ 2; SZ 1]]; SL [SZ 0; SZ 0]].
 Proof. vm_compute. split; reflexivity. Qed.
+(* a mixed history: RegisterSink("C"), RegisterSink("c") (rejected: registered), Open("C://h/ok");
+   the third operation not returning is rejected by the oracle *)
+Example C19_example_mixed :
+  let u1 := SL [SZ 0; SB [x43; x3a; x2f; x2f; x68; x2f; x6f; x6b]; SZ 0; SB [x63]; SZ 0; SB [x68]; SB [x68]; SB [];
+                SB [x2f; x6f; x6b]; SB []; SB []; SZ 1; SB []] in
+  let i := SL [SZ 5; SL [SL [SZ 0; SB [x43]; SB [x63]]; SL [SZ 0; SB [x63]; SB [x63]]; SL [SZ 1; SL [u1]; SZ 1]]] in
+  let ks := SL [SB [x63]; SB s_file] in
+  wf i = true
+  /\ model i = SL [SL [SZ 0; SZ 0; ks]; SL [SZ 0; SZ 3; ks];
+                  SL [SL [SZ 0; SZ 0; SL [SL [SZ 1; SZ 2]]; SL [SL [SZ 0; SZ 1; SZ 0]]; SL [SL [SZ 0; SZ 1; SZ 1]]; SL [SZ 0; SZ 0]]; ks]]
+  /\ spec i (model i) = true
+  /\ spec i (SL [SL [SZ 0; SZ 0; ks]; SL [SZ 0; SZ 3; ks]; blocked]) = false
+  /\ spec i (SL [SL [SZ 0; SZ 0; ks]; SL [SZ 0; SZ 3; ks]]) = false.
+Proof. vm_compute. repeat split. Qed.
